@@ -127,6 +127,29 @@ func nearMisses(run *vk.Run, w *world.World, pt []byte) {
 		}
 		run.Distinct("pw-rev:" + name)
 	}
+	// passphrases are byte strings: pairs that differ only in bytes that are not valid UTF-8 (or that collapse under a
+	// lossy conversion to U+FFFD) are different passphrases, in both directions
+	for pi, pair := range [][2]string{{"caf\xe9-2019", "caf\xe8-2019"}, {"hunter2\xff", "hunter2\xfe"}, {"hunter2\xff", "hunter2\xff\xfe"},
+		{"pass\x80word", "pass\uFFFDword"}, {"\xc3\x28", "\xa0\xa1"}, {"a\x00b", "a\x00c"}} {
+		for dir := 0; dir < 2; dir++ {
+			a, b := pair[dir], pair[1-dir]
+			ra, err := age.NewScryptRecipient(a)
+			if err != nil {
+				continue // the library may refuse such a passphrase outright; that is not this property's business
+			}
+			ra.SetWorkFactor(3)
+			fa, err := encryptTo(ra, msg)
+			if err != nil {
+				vk.Infra("%v", err)
+			}
+			ib, err := age.NewScryptIdentity(b)
+			if err != nil {
+				continue
+			}
+			mustNotOpen(run, fa, ib, fmt.Sprintf("passphrase-bytes-%d-%d", pi, dir), fmt.Sprintf("file for passphrase %q opened with %q", a, b))
+			run.Distinct(fmt.Sprintf("pw-bytes:%d/%d", pi, dir))
+		}
+	}
 	// histories: a successful decryption must not help a later wrong identity (same process, same file)
 	for round := 0; round < 2; round++ {
 		r, err := age.Decrypt(bytes.NewReader(file), right)
